@@ -708,16 +708,21 @@ def scan_templates(H, kwargs):
                 if e.name in J_PASS:
                     return jtype(e.node, depth + 1)
                 if e.name == "items":
-                    return seq(), False
+                    return (("dictattr",) if isinstance(e.node, nodes.Getattr) else seq()), False
                 if e.name in J_SCALAR_RESULT or e.name in J_SCALARIZE:
                     return SCALAR, False
                 return UNK, False
             if isinstance(e, nodes.Getattr):
-                return H.attr_type(e.attr), False
+                t = H.attr_type(e.attr)
+                return (("dictattr",) if isinstance(t, tuple) and t[0] == "dict" else t), False
             if isinstance(e, nodes.Call):
                 f = e.node
                 if isinstance(f, nodes.Getattr):
                     if f.attr in ("items", "keys", "values"):
+                        # a dict view: insertion order. For an ATTRIBUTE of a parsed object that order is whatever registration of the object
+                        # survived (Schemas.classes_by_name compat overwrite compares dicts, i.e. ignores order) => an order-producing site
+                        if isinstance(f.node, nodes.Getattr):
+                            return ("dictattr",), False
                         return seq(), False
                     if f.attr in H.func:
                         return H.func_type(f.attr), False
@@ -763,7 +768,7 @@ def scan_templates(H, kwargs):
 
         def add(n, e, what, flag_unknown=True):
             t, s = jtype(e)
-            if t == SET or t == ("acc",) or (t == UNK and flag_unknown):
+            if t == SET or t == ("acc",) or t == ("dictattr",) or (t == UNK and flag_unknown):
                 sites.append(dict(file=rel, line=n.lineno, iter=jname(e if not (isinstance(e, nodes.Filter) and e.name in J_SORT) else e), sorted=s, known=(t != UNK),
                                   kind="jinja", effect="output", what=what))
 
@@ -827,6 +832,25 @@ def scan_registrations(H):
                     sites.append(dict(file=rel, line=n.lineno, key=ksrc, kind=kind))
     return sites
 
+# ------------------------------------------------------------------ shape of the "Recursive allOf reference" test of _process_models
+def recursion_test_exact(H):
+    """True iff every `<ref>.endswith(<f-string>)` test inside _process_models compares with "/" + class name, i.e. with the whole last path
+    segment (a plain suffix test would confuse Cat with WildCat).  No such test at all is fine (nothing is finalised early); any other shape => False."""
+    defs = H.funcdefs.get("_process_models", [])
+    if len(defs) != 1:
+        return False
+    ok = True
+    for n in ast.walk(defs[0]):
+        if isinstance(n, ast.Call) and isinstance(n.func, ast.Attribute) and n.func.attr in ("endswith", "startswith", "find", "rfind", "index", "count"):
+            a = n.args[0] if n.args else None
+            good = (n.func.attr == "endswith" and isinstance(a, ast.JoinedStr) and len(a.values) == 2 and isinstance(a.values[0], ast.Constant) and a.values[0].value == "/"
+                    and isinstance(a.values[1], ast.FormattedValue) and src(a.values[1].value).endswith("class_info.name"))
+            ok = ok and good
+        if isinstance(n, ast.Compare) and any(isinstance(o, (ast.In, ast.NotIn)) for o in n.ops) and "ref" in src(n):
+            ok = False   # substring test on a reference
+    return ok
+
+
 # ------------------------------------------------------------------ emit
 def coq_str(s):
     return "[" + "; ".join(str(ord(c)) for c in s) + "]%N" if s else "(@nil N)"
@@ -863,7 +887,7 @@ def collect():
     return out
 
 
-def generate(sites, regs=()):
+def generate(sites, regs=(), rec_exact=False):
     eff = {"none": "ENone", "diag": "EDiag", "output": "EOutput"}
     lines = ["(* GENERATED by harness/translate/gen_loops.py from the templates and the Python sources under openapi_python_client/. Do not edit. *)\n",
              "From Coq Require Import NArith List Bool.\nImport ListNotations.\nRequire Import OPC.Order OPC.Registry.\n",
@@ -880,6 +904,8 @@ def generate(sites, regs=()):
     lines.append(";\n".join("  {| rs_file := %s; rs_line := %d%%N; rs_kind := %s |}  (* %s:%d %s *)" % (coq_str(r["file"]), r["line"], rk[r["kind"]], r["file"], r["line"],
                                                                                                    r["key"].replace("*)", "* )").replace("(*", "( *").replace('"', "'")) for r in regs))
     lines.append("\n].\n")
+    lines.append("(* parser/properties/__init__.py _process_models: the recursive-allOf test compares the unresolved $ref with \"/\" ++ class name (whole last segment) *)\n")
+    lines.append("Definition gen_recursion_test_exact : bool := %s.\n" % ("true" if rec_exact else "false"))
     return "".join(lines)
 
 
@@ -910,5 +936,5 @@ if __name__ == "__main__":
     if not any(s["kind"] == "jinja" for s in sites) or not any(s["kind"] == "py" for s in sites):
         print("gen_loops: implausible result (no template sites or no python sites)")
         sys.exit(1)
-    changed = write_if_changed(os.path.join(HERE, "..", "..", "coq", "gen", "GenLoops.v"), generate(sites, regs))
+    changed = write_if_changed(os.path.join(HERE, "..", "..", "coq", "gen", "GenLoops.v"), generate(sites, regs, recursion_test_exact(_H)))
     print("GenLoops.v", "rewritten" if changed else "unchanged", "(%d sites, %d unsorted, %d unknown; %d registration sites: %s)" % (len(sites), sum(not s["sorted"] for s in sites), sum(not s["known"] for s in sites), len(regs), ",".join(r["kind"] for r in regs)))
